@@ -181,8 +181,10 @@ NumIters(c) == CASE c.kind \in {"cyl_long", "cyl_medium", "cyl_short"} -> c.n
 IterElems(c, it) == CASE c.kind \in {"cyl_long", "cyl_medium", "cyl_short"} -> CylIter(c.kind, c.n, it)
                       [] c.kind = "capsule" -> CapIter(c.n, c.c, it)
                       [] c.kind = "box" -> BoxIter(c.z, it)
-RECURSIVE ElemsFrom(_, _)
-ElemsFrom(c, it) == IF it >= NumIters(c) THEN <<>> ELSE IterElems(c, it) \o ElemsFrom(c, it + 1)
+RECURSIVE ElemsRange(_, _, _)      \* iterations lo .. hi-1, split in halves so that the recursion depth stays logarithmic
+ElemsRange(c, lo, hi) == IF lo >= hi THEN <<>> ELSE IF hi = lo + 1 THEN IterElems(c, lo)
+                         ELSE LET mid == (lo + hi) \div 2 IN ElemsRange(c, lo, mid) \o ElemsRange(c, mid, hi)
+ElemsFrom(c, it) == ElemsRange(c, it, NumIters(c))
 RECURSIVE IcoRounds(_, _, _)
 IcoRounds(tris, v, order) == IF order = 0 THEN [tris |-> tris, v |-> v, cacheEmpty |-> TRUE]
                              ELSE LET r == SubRound(tris, 1, {}, v, <<>>)  rest == IcoRounds(r.tris, r.v, order - 1) IN
